@@ -66,6 +66,8 @@ pub struct Prog {
     pub recover_at_removals: bool,
     /// additionally recover from the image after every manifest write and every rename
     pub recover_at_meta: bool,
+    /// additionally after every write to any file (WAL appends, table blocks, temp files)
+    pub recover_at_all_writes: bool,
     /// sticky fault by file kind, armed after the setup: (call classes, file-name suffix)
     pub fault: Option<(u32, &'static str)>,
     /// if set, the fault only hits filesystem calls made by this thread (index into `threads`)
@@ -103,6 +105,7 @@ impl Prog {
             "fs_calls_are_switch_points": self.fs_switch,
             "crash_recovery_checked_at_every_file_removal": self.recover_at_removals,
             "crash_recovery_checked_at_every_manifest_write_and_rename": self.recover_at_meta,
+            "crash_recovery_checked_at_every_write_to_any_file": self.recover_at_all_writes,
             "sticky_fault_after_setup": self.fault.map(|(c, s)| format!("classes {:#x} on *{}", c, s)),
             "fault_only_hits_thread": self.fault_thread.map(|t| t + 1),
             "directory_checked_after_final_compaction": self.final_directory,
@@ -284,6 +287,7 @@ fn exec_op(db: &DB, keys: &[Vec<u8>], thread: usize, op: &TOp, log: &Mutex<Vec<E
 
 /// The body of one execution. Returns the history through `log`.
 fn prog_body(prog: &Prog, log: &Arc<Mutex<Vec<Event>>>, stale: &Arc<AtomicU64>) {
+    parking_lot::verif_rt::set_oracle_mode(false);
     CLOCK.store(0, Ordering::SeqCst);
     log.lock().unwrap().clear();
     stale.store(0, Ordering::SeqCst);
@@ -293,6 +297,7 @@ fn prog_body(prog: &Prog, log: &Arc<Mutex<Vec<Event>>>, stale: &Arc<AtomicU64>) 
     if prog.recover_at_removals {
         fs.state().removal_clock = Some(&CLOCK);
         fs.state().snap_meta = prog.recover_at_meta;
+        fs.state().snap_all = prog.recover_at_all_writes;
     }
     let opts = db_options(&fs, &prog.cfg);
     let db = match DB::open(opts) {
@@ -345,6 +350,7 @@ fn prog_body(prog: &Prog, log: &Arc<Mutex<Vec<Event>>>, stale: &Arc<AtomicU64>) 
     exec_op(&db, &prog.keys, 0, &TOp::SnapRead(all), log2);
     stale.store(fs.state().stale_uses, Ordering::SeqCst);
     if prog.final_directory {
+        parking_lot::verif_rt::set_oracle_mode(true);
         db.compact_range(None..None);
         let probe = db.verif_probe();
         let mut spins = 0u32;
@@ -369,6 +375,7 @@ fn prog_body(prog: &Prog, log: &Arc<Mutex<Vec<Event>>>, stale: &Arc<AtomicU64>) 
         Ok(db) => drop(db),
         Err(_) => panic!("harness: database handle still shared at the end"),
     }
+    parking_lot::verif_rt::set_oracle_mode(true);
     if prog.judge_under_fault {
         fs.state().fail_by_suffix = None;
         let events = log2.lock().unwrap().clone();
@@ -454,60 +461,162 @@ fn check_durable_after_reopen(prog: &Prog, fs: &VerifFs, events: &[Event]) -> Op
 fn check_removal_snapshots(prog: &Prog, fs: &VerifFs, events: &[Event], snaps: &[(u64, String, crate::vfs::Image)]) -> Option<String> {
     let mut writes: Vec<&Event> = events.iter().filter(|e| matches!(e.op, TOp::Put(..) | TOp::Del(..) | TOp::Batch(..))).collect();
     writes.sort_by_key(|e| e.invoke);
-    // single-writer discipline: no two writes overlap in time
-    for w in writes.windows(2) {
-        if w[1].invoke < w[0].ret {
-            return None;
-        }
-    }
+    // single-writer discipline (no two writes overlap in time): whole-state candidates; otherwise
+    // the per-key oracle
+    let single_writer = writes.windows(2).all(|w| w[1].invoke >= w[0].ret);
     let dirs = fs.dirs();
+    let sh = |m: &M| format!("{{{}}}", m.iter().map(|(k, v)| format!("{}={}", esc(&prog.keys[*k as usize]), show_val(v))).collect::<Vec<_>>().join(", "));
+    let effect = |e: &Event, k: u8| -> Option<Option<Vec<u8>>> {
+        match &e.op {
+            TOp::Put(kk, v, s) if *kk == k => Some(Some(val(*v, *s))),
+            TOp::Del(kk) if *kk == k => Some(None),
+            TOp::Batch(items) => items.iter().rev().find(|(kk, _)| *kk == k).map(|(_, v)| v.map(|v| val(v, 8))),
+            _ => None,
+        }
+    };
     for (tick, label, image) in snaps {
         let head = if label.starts_with("the removal") { "C11 needed file removed" } else { "C02 crash under concurrency" };
-        let mut m = M::new();
-        let mut cands: Vec<M> = vec![];
-        let mut in_flight_done = false;
-        for w in writes.iter() {
-            // `tick` is the value of the clock at the removal = the number the *next* event
-            // boundary will get: a write has returned iff its return stamp is smaller
-            if w.ret < *tick {
-                apply_model(&mut m, &w.op, prog.keys.len());
-            } else if w.invoke < *tick && !in_flight_done {
-                cands.push(m.clone());
-                let mut m2 = m.clone();
-                apply_model(&mut m2, &w.op, prog.keys.len());
-                cands.push(m2);
-                in_flight_done = true;
+        // recover (memoised by image content: the same image recurs in many schedules)
+        let got: M = {
+            use std::hash::{Hash, Hasher};
+            let mut h = std::collections::hash_map::DefaultHasher::new();
+            prog.name.hash(&mut h);
+            for (p, b) in image.iter() {
+                p.hash(&mut h);
+                b.hash(&mut h);
             }
-        }
-        if cands.is_empty() {
-            cands.push(m.clone());
-        }
-        let rfs = VerifFs::from_image(image, &dirs);
-        let db = match DB::open(db_options(&rfs, &prog.cfg)) {
-            Ok(db) => db,
-            Err(e) => {
-                return Some(format!("{}: after {} a crash image cannot be opened: {}", head, label, e))
+            let key = h.finish();
+            let cached = RECOVERY_CACHE.with(|c| c.borrow().get(&key).cloned());
+            match cached {
+                Some(Ok(m)) => m,
+                Some(Err(e)) => return Some(format!("{}: after {} a crash image cannot be opened: {}", head, label, e)),
+                None => {
+                    let rfs = VerifFs::from_image(image, &dirs);
+                    let res: Result<M, String> = match DB::open(db_options(&rfs, &prog.cfg)) {
+                        Ok(db) => {
+                            let mut got = M::new();
+                            let mut err = None;
+                            for (i, k) in prog.keys.iter().enumerate() {
+                                match db_get(&db, k, None) {
+                                    Ok(Some(v)) => {
+                                        got.insert(i as u8, v);
+                                    }
+                                    Ok(None) => {}
+                                    Err(e) => err = Some(format!("get {} fails after recovery: {}", esc(k), e)),
+                                }
+                            }
+                            drop(db);
+                            match err {
+                                Some(e) => Err(e),
+                                None => Ok(got),
+                            }
+                        }
+                        Err(e) => Err(e.to_string()),
+                    };
+                    RECOVERY_CACHE.with(|c| {
+                        let mut c = c.borrow_mut();
+                        if c.len() > 200_000 {
+                            c.clear();
+                        }
+                        c.insert(key, res.clone());
+                    });
+                    match res {
+                        Ok(m) => m,
+                        Err(e) => return Some(format!("{}: after {} a crash image cannot be opened: {}", head, label, e)),
+                    }
+                }
             }
         };
-        let mut got = M::new();
-        for (i, k) in prog.keys.iter().enumerate() {
-            if let Ok(Some(v)) = db_get(&db, k, None) {
-                got.insert(i as u8, v);
+        if single_writer {
+            let mut m = M::new();
+            let mut cands: Vec<M> = vec![];
+            let mut in_flight_done = false;
+            for w in writes.iter() {
+                // `tick` is the value of the clock at the snapshot = the number the *next* event
+                // boundary will get: a write has returned iff its return stamp is smaller
+                if w.ret < *tick {
+                    apply_model(&mut m, &w.op, prog.keys.len());
+                } else if w.invoke < *tick && !in_flight_done {
+                    cands.push(m.clone());
+                    let mut m2 = m.clone();
+                    apply_model(&mut m2, &w.op, prog.keys.len());
+                    cands.push(m2);
+                    in_flight_done = true;
+                }
+            }
+            if cands.is_empty() {
+                cands.push(m.clone());
+            }
+            if !cands.contains(&got) {
+                return Some(format!(
+                    "{}: a crash right after {} recovers {} but the writes acknowledged by then give {}",
+                    head,
+                    label,
+                    sh(&got),
+                    cands.iter().map(sh).collect::<Vec<_>>().join(" or ")
+                ));
+            }
+            continue;
+        }
+        // several writers: per key, the recovered value must come from a write that had started
+        // and that no write acknowledged before the crash definitely followed
+        for k in 0..prog.keys.len() as u8 {
+            let kw: Vec<(&Event, Option<Vec<u8>>)> = writes.iter().filter_map(|e| effect(e, k).map(|v| (*e, v))).collect();
+            let mut allowed: Vec<Option<Vec<u8>>> = vec![];
+            if !kw.iter().any(|(w, _)| w.ret < *tick) {
+                allowed.push(None);
+            }
+            for (w, v) in kw.iter() {
+                if w.invoke < *tick && !kw.iter().any(|(w2, _)| w2.ret < *tick && w2.invoke > w.ret) {
+                    allowed.push(v.clone());
+                }
+            }
+            let g = got.get(&k).cloned();
+            if !allowed.contains(&g) {
+                let shv = |v: &Option<Vec<u8>>| v.as_ref().map(|v| show_val(v)).unwrap_or_else(|| "NotFound".into());
+                return Some(format!(
+                    "{}: a crash right after {} recovers {} = {} but the writes started / acknowledged by then allow only {} (recovered state {})",
+                    head,
+                    label,
+                    esc(&prog.keys[k as usize]),
+                    shv(&g),
+                    allowed.iter().map(shv).collect::<Vec<_>>().join(" / "),
+                    sh(&got)
+                ));
             }
         }
-        drop(db);
-        if !cands.contains(&got) {
-            let sh = |m: &M| format!("{{{}}}", m.iter().map(|(k, v)| format!("{}={}", esc(&prog.keys[*k as usize]), show_val(v))).collect::<Vec<_>>().join(", "));
-            return Some(format!(
-                "{}: a crash right after {} recovers {} but the writes acknowledged by then give {}",
-                head,
-                label,
-                sh(&got),
-                cands.iter().map(sh).collect::<Vec<_>>().join(" or ")
-            ));
+        // a batch is recovered completely or not at all: a key of the batch that shows another
+        // value needs another write that could follow the batch
+        for b in writes.iter() {
+            if let TOp::Batch(items) = &b.op {
+                let ks: Vec<u8> = items.iter().map(|(k, _)| *k).collect();
+                let shows = |k: u8| effect(b, k).map(|v| v == got.get(&k).cloned()).unwrap_or(false);
+                let n_seen = ks.iter().filter(|k| shows(**k)).count();
+                // only judge batches whose values are unique puts
+                if items.iter().any(|(_, v)| v.is_none()) || n_seen == 0 || n_seen == ks.len() {
+                    continue;
+                }
+                for k in ks.iter().filter(|k| !shows(**k)) {
+                    let g = got.get(k).cloned();
+                    let explained = writes.iter().any(|w| !std::ptr::eq(*w, *b) && w.ret > b.invoke && effect(w, *k) == Some(g.clone()));
+                    if !explained {
+                        return Some(format!(
+                            "{}: a crash right after {} recovers only part of the batch {}: state {}",
+                            head,
+                            label,
+                            top_str(&b.op, &prog.keys),
+                            sh(&got)
+                        ));
+                    }
+                }
+            }
         }
     }
     None
+}
+
+thread_local! {
+    static RECOVERY_CACHE: std::cell::RefCell<std::collections::HashMap<u64, Result<M, String>>> = std::cell::RefCell::new(std::collections::HashMap::new());
 }
 
 /// One execution of the program; returns the history (only meaningful if the outcome is Ok).
